@@ -30,9 +30,9 @@ JAR = "/opt/veriftools/tla/tla2tools.jar:/opt/veriftools/tla/CommunityModules-de
 NCPU = int(os.environ.get("VERIF_JOBS", "16"))
 
 # --------------------------------------------------------------------------
-# Fix transport: s * sum d[i] * 1e4^(i-1-4), d[0] least significant, 11 limbs
+# Fix transport: s * sum d[i] * 1e4^(i-1-4), d[0] least significant, 13 limbs
 # --------------------------------------------------------------------------
-FIX_W = 11
+FIX_W = 13
 FIX_NF = 4
 _SCALE = 10 ** (4 * FIX_NF)
 _LIM = 10 ** (4 * FIX_W)
